@@ -40,14 +40,20 @@ theorem sendGoaway_ctl (c : H2Conn) (code : Nat) : AllCtl (sendGoaway c code).2 
   · exact goawayResets_ctl c code
   · exact AllCtl.append (goawayResets_ctl c code) (AllCtl.cons rfl AllCtl.nil)
 
-theorem discardHeaders_ctl (c : H2Conn) : AllCtl (discardHeaders c).2 := by
+theorem discardCount_ctl (c : H2Conn) : AllCtl (discardCount c).2 := by
+  unfold discardCount
+  simp only
+  split
+  · exact sendGoaway_ctl _ _
+  · exact AllCtl.nil
+
+theorem discardHeaders_ctl (kind : HdrKind) (c : H2Conn) : AllCtl (discardHeaders c kind).2 := by
   unfold discardHeaders
   split
   · exact AllCtl.nil
-  · simp only
-    split
-    · exact sendGoaway_ctl _ _
-    · exact AllCtl.nil
+  · split
+    · exact AllCtl.append (discardCount_ctl c) (sendGoaway_ctl _ _)
+    · exact discardCount_ctl c
 
 theorem recvEndData_ctl (c : H2Conn) (s : Strm) (alen : Nat) : AllCtl (recvEndData c s alen).2.1 := by
   unfold recvEndData
@@ -210,17 +216,17 @@ theorem recvTrailers_ctl (c : H2Conn) (sid : Nat) (kind : HdrKind) (es : Bool) :
     AllCtl (recvTrailers c sid kind es).2 := by
   unfold recvTrailers
   split
-  · exact andThen_ctl _ _ (sendGoaway_ctl _ _) discardHeaders_ctl
+  · exact andThen_ctl _ _ (sendGoaway_ctl _ _) (discardHeaders_ctl kind)
   · split
-    · exact andThen_ctl _ _ (AllCtl.cons rfl AllCtl.nil) discardHeaders_ctl
+    · exact andThen_ctl _ _ (AllCtl.cons rfl AllCtl.nil) (discardHeaders_ctl kind)
     · split
-      · exact andThen_ctl _ _ (AllCtl.cons rfl AllCtl.nil) discardHeaders_ctl
+      · exact andThen_ctl _ _ (AllCtl.cons rfl AllCtl.nil) (discardHeaders_ctl kind)
       · simp only
         split
         · split
           · exact andThen_ctl _ _ (recvEndData_ctl _ _ _) (fun c => sendGoaway_ctl c _)
           · exact recvEndData_ctl _ _ _
-        · exact andThen_ctl _ _ (recvEndData_ctl _ _ _) discardHeaders_ctl
+        · exact andThen_ctl _ _ (recvEndData_ctl _ _ _) (discardHeaders_ctl kind)
 
 theorem newStream_ctl (c : H2Conn) (sid : Nat) (kind : HdrKind) (es : Bool) :
     AllCtl (newStream c sid kind es).2 := by
@@ -241,9 +247,9 @@ theorem recvHeaders_ctl (c : H2Conn) (sid : Nat) (kind : HdrKind) (es : Bool) (d
       · split
         · exact recvTrailers_ctl _ _ _ _
         · split
-          · exact discardHeaders_ctl _
+          · exact discardHeaders_ctl _ _
           · split
-            · exact andThen_ctl _ _ (refuseStream_ctl _ _) discardHeaders_ctl
+            · exact andThen_ctl _ _ (refuseStream_ctl _ _) (discardHeaders_ctl kind)
             · exact newStream_ctl _ _ _ _
 
 /-- **the receive side never emits response HEADERS or DATA**: every frame it sends is a
@@ -303,12 +309,17 @@ theorem foldl_rstState_len (l : List Strm) : ∀ (c : H2Conn),
   simp only
   split <;> simp
 
-@[simp] theorem discardHeaders_len (c : H2Conn) : (discardHeaders c).1.streams.length = c.streams.length := by
+@[simp] theorem discardCount_len (c : H2Conn) : (discardCount c).1.streams.length = c.streams.length := by
+  unfold discardCount
+  simp only
+  split <;> simp
+
+@[simp] theorem discardHeaders_len (kind : HdrKind) (c : H2Conn) :
+    (discardHeaders c kind).1.streams.length = c.streams.length := by
   unfold discardHeaders
   split
   · rfl
-  · simp only
-    split <;> simp
+  · split <;> simp
 
 @[simp] theorem recvEndData_len (c : H2Conn) (s : Strm) (alen : Nat) :
     (recvEndData c s alen).1.streams.length = c.streams.length := by
@@ -539,17 +550,17 @@ theorem recvTrailers_len (c : H2Conn) (sid : Nat) (kind : HdrKind) (es : Bool) :
     (recvTrailers c sid kind es).1.streams.length = c.streams.length := by
   unfold recvTrailers
   split
-  · rw [andThen_len _ _ discardHeaders_len]; simp
+  · rw [andThen_len _ _ (discardHeaders_len kind)]; simp
   · split
-    · rw [andThen_len _ _ discardHeaders_len]; simp
+    · rw [andThen_len _ _ (discardHeaders_len kind)]; simp
     · split
-      · rw [andThen_len _ _ discardHeaders_len]; simp
+      · rw [andThen_len _ _ (discardHeaders_len kind)]; simp
       · simp only
         split
         · split
           · rw [andThen_len _ _ (fun c => sendGoaway_len c _)]; simp
           · simp
-        · rw [andThen_len _ _ discardHeaders_len]; simp
+        · rw [andThen_len _ _ (discardHeaders_len kind)]; simp
 
 theorem addStrm_len (c : H2Conn) (s : Strm) : (addStrm c s).streams.length = c.streams.length + 1 := by
   have h := congrArg List.length (List.takeWhile_append_dropWhile (p := fun x => decide (x.prio > s.prio))
@@ -575,7 +586,7 @@ theorem recvHeaders_len_le (c : H2Conn) (sid : Nat) (kind : HdrKind) (es : Bool)
         · split
           · simpa using h
           · split
-            · rw [andThen_len _ _ discardHeaders_len, refuseStream_len]; exact h
+            · rw [andThen_len _ _ (discardHeaders_len kind), refuseStream_len]; exact h
             · rename_i hfull
               unfold newStream
               split
@@ -920,11 +931,16 @@ theorem applySettings_fs : ∀ (ps : List (Nat × Nat)) (c : H2Conn), FsOk c →
 @[simp] theorem connWinUpd_fs (c : H2Conn) (len : Nat) : (connWinUpd c len).1.peerMaxFrame = c.peerMaxFrame := rfl
 attribute [simp] rstState_fs sendGoaway_fs
 
-@[simp] theorem discardHeaders_fs (c : H2Conn) : (discardHeaders c).1.peerMaxFrame = c.peerMaxFrame := by
+@[simp] theorem discardCount_fs (c : H2Conn) : (discardCount c).1.peerMaxFrame = c.peerMaxFrame := by
+  unfold discardCount
+  simp only; split <;> simp
+
+@[simp] theorem discardHeaders_fs (kind : HdrKind) (c : H2Conn) :
+    (discardHeaders c kind).1.peerMaxFrame = c.peerMaxFrame := by
   unfold discardHeaders
   split
   · rfl
-  · simp only; split <;> simp
+  · split <;> simp
 
 @[simp] theorem recvEndData_fs (c : H2Conn) (s : Strm) (alen : Nat) :
     (recvEndData c s alen).1.peerMaxFrame = c.peerMaxFrame := by
@@ -979,17 +995,17 @@ theorem recvTrailers_fs (c : H2Conn) (sid : Nat) (kind : HdrKind) (es : Bool) :
     (recvTrailers c sid kind es).1.peerMaxFrame = c.peerMaxFrame := by
   unfold recvTrailers
   split
-  · rw [andThen_fs _ _ discardHeaders_fs]; simp
+  · rw [andThen_fs _ _ (discardHeaders_fs kind)]; simp
   · split
-    · rw [andThen_fs _ _ discardHeaders_fs]; simp
+    · rw [andThen_fs _ _ (discardHeaders_fs kind)]; simp
     · split
-      · rw [andThen_fs _ _ discardHeaders_fs]; simp
+      · rw [andThen_fs _ _ (discardHeaders_fs kind)]; simp
       · simp only
         split
         · split
           · rw [andThen_fs _ _ (fun c => sendGoaway_fs c _)]; simp
           · simp
-        · rw [andThen_fs _ _ discardHeaders_fs]; simp
+        · rw [andThen_fs _ _ (discardHeaders_fs kind)]; simp
 
 theorem recvHeaders_fs (c : H2Conn) (sid : Nat) (kind : HdrKind) (es : Bool) (dep : Option Nat) (padBad : Bool) :
     (recvHeaders c sid kind es dep padBad).1.peerMaxFrame = c.peerMaxFrame := by
@@ -1005,7 +1021,7 @@ theorem recvHeaders_fs (c : H2Conn) (sid : Nat) (kind : HdrKind) (es : Bool) (de
         · split
           · simp
           · split
-            · rw [andThen_fs _ _ discardHeaders_fs, refuseStream_fs]
+            · rw [andThen_fs _ _ (discardHeaders_fs kind), refuseStream_fs]
             · unfold newStream
               split
               · simp [addStrm]
